@@ -172,8 +172,13 @@ SAMPLE = {0: {'op': 'cube', 'size': [1.0, 2.0, 3.0], 'center': False, 'children'
 def chamfer_oracle(c):
     """external_cylinder_chamfer: bottom cutter and its mirror image about mid-height, same outline, angle, segments"""
     op, a, t = c['op'], c['args'], c['tree']
-    if t is None or op != 504 or a[5] != 0.0: return None
+    if t is None or op != 504: return None
     size, oversize, radius, height, seg = a[0], a[1], a[2], a[3], int(a[4])
+    if a[5] != 0.0:
+        # centred: the same pair of cutters moved down by half the height, so the mirror plane is z = 0
+        if t['op'] != 'translate' or t['v'] != [0.0, 0.0, -height / 2.0] or len(t['children']) != 1:
+            return fail('centred_chamfer_is_the_uncentred_pair_moved_down_by_half_the_height', args=a)
+        t = t['children'][0]
     if t['op'] != 'union' or len(t['children']) != 2: return fail('chamfer_is_union_of_two_cutters', args=a)
     bot, topw = t['children']
     try:
